@@ -331,6 +331,9 @@ func pivotClasses(r *rand.Rand, ks *keyset) []int {
 
 type stepRec struct{ coq, str string }
 
+// a step of a wrapper history never returned
+type stuckStop struct{}
+
 func join(steps []stepRec) (string, []string) {
 	cs := make([]string, len(steps))
 	ss := make([]string, len(steps))
@@ -354,7 +357,12 @@ func genWrapper(r *rand.Rand, variant string) vh.Case {
 	everyShape := r.Intn(4) == 0
 	shapeGap := 5 + r.Intn(8)
 	do := func(o wop, forceShape bool) {
-		res := applyW(t, o)
+		res := applyWWatch(t, o)
+		if res.kind == "stuck" {
+			// the history ends here
+			steps = append(steps, stepRec{"(" + o.coq() + ", " + res.coq() + ", None)", o.String() + " " + res.String()})
+			panic(stuckStop{})
+		}
 		// the generator's shadow of the key set
 		switch o.kind {
 		case "insert":
@@ -409,158 +417,168 @@ func genWrapper(r *rand.Rand, variant string) vh.Case {
 			return wop{kind: "uoi", k: old, x: kv{nk, ks.pay()}}
 		}
 	}
-	switch variant {
-	case "alias":
-		// Update / UpdateOrInsert with ONE value as both arguments (UpdateOrInsert(x, x), the upsert idiom) for a key that
-		// is absent, present with another payload, present with this very item (x fetched with Get); and with an old
-		// argument that is the stored item while the new one is a fresh item of the same key; scans and Gets in between
-		nb := 4 + r.Intn(10)
-		for i := 0; i < nb; i++ {
-			do(write(true), false)
-		}
-		absent := func() int {
-			for i := 0; i < 20; i++ {
-				if k := anyKey(r, u); !ks.m[k] {
-					return k
+	func() {
+		defer func() {
+			if p := recover(); p != nil {
+				if _, ok := p.(stuckStop); !ok {
+					panic(p)
 				}
+				stuckHistories++
 			}
-			for k := 2*r.Intn(u) + 1; ; k += 2 {
-				if !ks.m[k] {
-					return k
-				}
+		}()
+		switch variant {
+		case "alias":
+			// Update / UpdateOrInsert with ONE value as both arguments (UpdateOrInsert(x, x), the upsert idiom) for a key that
+			// is absent, present with another payload, present with this very item (x fetched with Get); and with an old
+			// argument that is the stored item while the new one is a fresh item of the same key; scans and Gets in between
+			nb := 4 + r.Intn(10)
+			for i := 0; i < nb; i++ {
+				do(write(true), false)
 			}
-		}
-		stored := func() (kv, bool) {
-			k, ok := ks.present(r)
-			if !ok {
-				return kv{}, false
-			}
-			do(wop{kind: "get", k: k}, false)
-			x, ok := t.Get(kv{k, 0}).(kv)
-			return x, ok
-		}
-		nops := 25 + r.Intn(40)
-		for i := 0; i < nops; i++ {
-			kind := []string{"update", "uoi"}[r.Intn(2)]
-			switch x := r.Float64(); {
-			case x < 0.45:
-				var it kv
-				switch r.Intn(3) {
-				case 0:
-					it = kv{absent(), ks.pay()}
-				case 1:
-					if k, ok := ks.present(r); ok {
-						it = kv{k, ks.pay()}
-					} else {
-						it = kv{absent(), ks.pay()}
+			absent := func() int {
+				for i := 0; i < 20; i++ {
+					if k := anyKey(r, u); !ks.m[k] {
+						return k
 					}
+				}
+				for k := 2*r.Intn(u) + 1; ; k += 2 {
+					if !ks.m[k] {
+						return k
+					}
+				}
+			}
+			stored := func() (kv, bool) {
+				k, ok := ks.present(r)
+				if !ok {
+					return kv{}, false
+				}
+				do(wop{kind: "get", k: k}, false)
+				x, ok := t.Get(kv{k, 0}).(kv)
+				return x, ok
+			}
+			nops := 25 + r.Intn(40)
+			for i := 0; i < nops; i++ {
+				kind := []string{"update", "uoi"}[r.Intn(2)]
+				switch x := r.Float64(); {
+				case x < 0.45:
+					var it kv
+					switch r.Intn(3) {
+					case 0:
+						it = kv{absent(), ks.pay()}
+					case 1:
+						if k, ok := ks.present(r); ok {
+							it = kv{k, ks.pay()}
+						} else {
+							it = kv{absent(), ks.pay()}
+						}
+					default:
+						var ok bool
+						if it, ok = stored(); !ok {
+							it = kv{absent(), ks.pay()}
+						}
+					}
+					do(wop{kind: kind, k: it.k, oldp: it.p, x: it}, r.Intn(3) == 0)
+					switch r.Intn(3) {
+					case 0:
+						do(wop{kind: "get", k: it.k}, false)
+					case 1:
+						do(wop{kind: "scan", w: r.Intn(4), k: []int{-1, 2*u + 1}[r.Intn(2)], f: filt{kind: "all"}, n: 1000}, false)
+					}
+				case x < 0.57:
+					if old, ok := stored(); ok {
+						nk := old.k
+						if r.Intn(3) == 0 {
+							nk = anyKey(r, u)
+						}
+						do(wop{kind: kind, k: old.k, oldp: old.p, x: kv{nk, ks.pay()}}, false)
+					}
+				case x < 0.70:
+					do(write(r.Intn(2) == 0), false)
+				case x < 0.78:
+					do(wop{kind: "get", k: pickKey(r, ks, u, 0.6)}, false)
 				default:
-					var ok bool
-					if it, ok = stored(); !ok {
-						it = kv{absent(), ks.pay()}
+					do(scan(), i == nops-1)
+				}
+			}
+			do(wop{kind: "scan", w: 0, k: -1, f: filt{kind: "all"}, n: 1000}, true)
+		case "limits":
+			// a tree of at least three levels; then, for each of the four scans and a pivot of every class, EVERY limit
+			// 0..len+1 (the n-th match may sit anywhere relative to the node boundaries)
+			u = 9 + r.Intn(10)
+			for len(ks.m) < u || levels(t.VerifInner()) < 3 {
+				do(wop{kind: "insert", x: kv{2 * r.Intn(2*u), ks.pay()}}, false)
+			}
+			for i := r.Intn(4); i > 0; i-- {
+				do(write(false), false)
+			}
+			do(wop{kind: "get", k: 0}, true)
+			sparse := filt{kind: "key", m: 4, r: 2 * r.Intn(2)}
+			sparseScan := r.Intn(4)
+			for w := 0; w < 4; w++ {
+				pcs := pivotClasses(r, ks)
+				r.Shuffle(len(pcs), func(i, j int) { pcs[i], pcs[j] = pcs[j], pcs[i] })
+				// the pivot outside the keys on the side the scan starts from delivers the whole tree
+				full := pcs[0]
+				for _, p := range pcs {
+					if (w < 2 && p < full) || (w >= 2 && p > full) {
+						full = p
 					}
 				}
-				do(wop{kind: kind, k: it.k, oldp: it.p, x: it}, r.Intn(3) == 0)
-				switch r.Intn(3) {
-				case 0:
-					do(wop{kind: "get", k: it.k}, false)
-				case 1:
-					do(wop{kind: "scan", w: r.Intn(4), k: []int{-1, 2*u + 1}[r.Intn(2)], f: filt{kind: "all"}, n: 1000}, false)
+				for _, p := range []int{full, pcs[0], pcs[1]} {
+					for n := 0; n <= len(ks.m)+1; n++ {
+						do(wop{kind: "scan", w: w, k: p, f: filt{kind: "all"}, n: n}, false)
+					}
 				}
-			case x < 0.57:
-				if old, ok := stored(); ok {
-					nk := old.k
+				if w == sparseScan {
+					for n := 0; n <= len(ks.m)/2+1; n++ {
+						do(wop{kind: "scan", w: w, k: full, f: sparse, n: n}, false)
+					}
+				}
+			}
+		case "sweep":
+			// build a tree, then every one of the four scans from every pivot position
+			nb := u + r.Intn(2*u)
+			for i := 0; i < nb; i++ {
+				do(write(r.Intn(5) > 0), i == nb-1)
+			}
+			f := pickFilt(r)
+			if r.Intn(2) == 0 {
+				f = filt{kind: "all"}
+			}
+			for w := 0; w < 4; w++ {
+				for p := -2; p <= 2*u+1; p++ {
+					n := 1000
 					if r.Intn(3) == 0 {
-						nk = anyKey(r, u)
+						n = 1 + r.Intn(len(ks.m)+2)
 					}
-					do(wop{kind: kind, k: old.k, oldp: old.p, x: kv{nk, ks.pay()}}, false)
-				}
-			case x < 0.70:
-				do(write(r.Intn(2) == 0), false)
-			case x < 0.78:
-				do(wop{kind: "get", k: pickKey(r, ks, u, 0.6)}, false)
-			default:
-				do(scan(), i == nops-1)
-			}
-		}
-		do(wop{kind: "scan", w: 0, k: -1, f: filt{kind: "all"}, n: 1000}, true)
-	case "limits":
-		// a tree of at least three levels; then, for each of the four scans and a pivot of every class, EVERY limit
-		// 0..len+1 (the n-th match may sit anywhere relative to the node boundaries)
-		u = 9 + r.Intn(10)
-		for len(ks.m) < u || levels(t.VerifInner()) < 3 {
-			do(wop{kind: "insert", x: kv{2 * r.Intn(2*u), ks.pay()}}, false)
-		}
-		for i := r.Intn(4); i > 0; i-- {
-			do(write(false), false)
-		}
-		do(wop{kind: "get", k: 0}, true)
-		sparse := filt{kind: "key", m: 4, r: 2 * r.Intn(2)}
-		sparseScan := r.Intn(4)
-		for w := 0; w < 4; w++ {
-			pcs := pivotClasses(r, ks)
-			r.Shuffle(len(pcs), func(i, j int) { pcs[i], pcs[j] = pcs[j], pcs[i] })
-			// the pivot outside the keys on the side the scan starts from delivers the whole tree
-			full := pcs[0]
-			for _, p := range pcs {
-				if (w < 2 && p < full) || (w >= 2 && p > full) {
-					full = p
+					do(wop{kind: "scan", w: w, k: p, f: f, n: n}, false)
 				}
 			}
-			for _, p := range []int{full, pcs[0], pcs[1]} {
-				for n := 0; n <= len(ks.m)+1; n++ {
-					do(wop{kind: "scan", w: w, k: p, f: filt{kind: "all"}, n: n}, false)
-				}
+		default:
+			nops := 20 + r.Intn(45)
+			if variant == "dense" {
+				nops = 50 + r.Intn(50)
 			}
-			if w == sparseScan {
-				for n := 0; n <= len(ks.m)/2+1; n++ {
-					do(wop{kind: "scan", w: w, k: full, f: sparse, n: n}, false)
+			grow := true
+			phase := 5 + r.Intn(20)
+			for i := 0; i < nops; i++ {
+				if phase == 0 {
+					grow = !grow
+					phase = 4 + r.Intn(18)
+				}
+				phase--
+				x := r.Float64()
+				switch {
+				case x < 0.66:
+					do(write(grow), i == nops-1)
+				case x < 0.74:
+					do(wop{kind: "get", k: pickKey(r, ks, u, 0.6)}, i == nops-1)
+				default:
+					do(scan(), i == nops-1)
 				}
 			}
 		}
-	case "sweep":
-		// build a tree, then every one of the four scans from every pivot position
-		nb := u + r.Intn(2*u)
-		for i := 0; i < nb; i++ {
-			do(write(r.Intn(5) > 0), i == nb-1)
-		}
-		f := pickFilt(r)
-		if r.Intn(2) == 0 {
-			f = filt{kind: "all"}
-		}
-		for w := 0; w < 4; w++ {
-			for p := -2; p <= 2*u+1; p++ {
-				n := 1000
-				if r.Intn(3) == 0 {
-					n = 1 + r.Intn(len(ks.m)+2)
-				}
-				do(wop{kind: "scan", w: w, k: p, f: f, n: n}, false)
-			}
-		}
-	default:
-		nops := 20 + r.Intn(45)
-		if variant == "dense" {
-			nops = 50 + r.Intn(50)
-		}
-		grow := true
-		phase := 5 + r.Intn(20)
-		for i := 0; i < nops; i++ {
-			if phase == 0 {
-				grow = !grow
-				phase = 4 + r.Intn(18)
-			}
-			phase--
-			x := r.Float64()
-			switch {
-			case x < 0.66:
-				do(write(grow), i == nops-1)
-			case x < 0.74:
-				do(wop{kind: "get", k: pickKey(r, ks, u, 0.6)}, i == nops-1)
-			default:
-				do(scan(), i == nops-1)
-			}
-		}
-	}
+	}()
 	coq, ss := join(steps)
 	return vh.Case{Coq: "(CaseW " + coq + ")%Z", Nontrivial: len(steps) >= 4,
 		Desc: map[string]interface{}{"kind": "wrapper history", "steps": ss}}
@@ -954,25 +972,27 @@ func genConc(r *rand.Rand, g int, stress bool) vh.Case {
 		}
 	}
 	results := make([][]obs, g)
+	at := make([]int32, g)
 	var wg sync.WaitGroup
 	start := make(chan struct{})
 	for i := 0; i < g; i++ {
 		i := i
 		results[i] = make([]obs, len(progs[i]))
 		wg.Add(1)
-		go func() {
-			defer wg.Done()
-			<-start
-			for j, o := range progs[i] {
-				results[i][j] = applyW(t, o)
-				if !stress && j%3 == 0 {
-					runtime.Gosched()
-				}
-			}
-		}()
+		go concCaller(&wg, start, t, progs[i], results[i], &at[i], stress)
 	}
 	close(start)
-	wg.Wait()
+	if dl := waitCallers(&wg, "main.concCaller("); dl != "" {
+		stuckHistories++
+		where := make([]string, g)
+		for i := range where {
+			j := atomic.LoadInt32(&at[i])
+			where[i] = fmt.Sprintf("caller %d: operation %d of %d, %s", i, j+1, len(progs[i]), progs[i][j].String())
+		}
+		return vh.Case{Coq: "CaseFatal", Nontrivial: true, Desc: map[string]interface{}{"kind": "concurrent callers of one wrapper: deadlock",
+			"what":    "every caller still running is parked in sync.RWMutex Lock/RLock inside a wrapper method at one instant: nobody holds the lock legitimately, no call will ever return",
+			"callers": g, "stuck_in": where, "one_of_the_stacks": dl}}
+	}
 	hist := make([]string, g)
 	desc := make([][]string, g)
 	for i := 0; i < g; i++ {
@@ -987,6 +1007,19 @@ func genConc(r *rand.Rand, g int, stress bool) vh.Case {
 	return vh.Case{Coq: fmt.Sprintf("(CaseP %d [%s] %s)%%Z", g, strings.Join(hist, ";\n"), coqShape(t.VerifInner())), Nontrivial: true,
 		Desc: map[string]interface{}{"kind": "concurrent callers of one wrapper", "callers": g, "histories": desc,
 			"final": fmt.Sprintf("%s len=%d", strShape(root), length)}}
+}
+
+//go:noinline
+func concCaller(wg *sync.WaitGroup, start chan struct{}, t *tree.BTree, prog []wop, results []obs, at *int32, stress bool) {
+	defer wg.Done()
+	<-start
+	for j, o := range prog {
+		atomic.StoreInt32(at, int32(j))
+		results[j] = applyW(t, o)
+		if !stress && j%3 == 0 {
+			runtime.Gosched()
+		}
+	}
 }
 
 // Clone() taken exactly when the root holds 2*degree-1 items (as a leaf root or as an inner root), then a write on the
@@ -1130,7 +1163,12 @@ func genMover(r *rand.Rand, readers int, moves int) vh.Case {
 		}()
 	}
 	close(start)
-	wg.Wait()
+	if dl := waitCallers(&wg, "main.genMover.func"); dl != "" {
+		stuckHistories++
+		return vh.Case{Coq: "CaseFatal", Nontrivial: true, Desc: map[string]interface{}{"kind": "one writer moving an entry with Update, concurrent readers: deadlock",
+			"what":    "the writer and every reader still running are parked in sync.RWMutex Lock/RLock inside a wrapper method at one instant: no call will ever return",
+			"readers": readers, "one_of_the_stacks": dl}}
+	}
 	all := map[string]seenT{}
 	for g := range seen {
 		for k, v := range seen[g] {
@@ -1198,17 +1236,29 @@ func genBig(r *rand.Rand, lo, hi int) vh.Case {
 	}
 	for j := 0; j < count; j++ {
 		k := start + step*((j*stride)%count)
-		t.Insert(kv{k, k + 7})
+		if res := applyWWatch(t, wop{kind: "insert", x: kv{k, k + 7}}); res.kind != "unit" {
+			stuckHistories++
+			return vh.Case{Coq: "CaseFatal", Nontrivial: true, Desc: map[string]interface{}{"kind": "big wrapper tree",
+				"what": fmt.Sprintf("insert number %d, Insert(%d:%d): %s", j+1, k, k+7, res.String())}}
+		}
 	}
 	lo0, hi0 := start-1, start+step*(count-1)+1
 	limits := []int{1023, 1024, 1025, 2000, count - 1, count, count + 1, 1 << 20}
 	steps := []string{}
 	descs := []string{}
+	stuck := false
 	scan := func(w, p int, f filt, n int) {
+		if stuck {
+			return
+		}
 		o := wop{kind: "scan", w: w, k: p, f: f, n: n}
-		res := applyW(t, o)
+		res := applyWWatch(t, o)
+		if res.kind == "stuck" {
+			stuck = true
+			stuckHistories++
+		}
 		if res.kind != "list" {
-			// a panic here is a divergence of its own: an empty summary with an impossible length
+			// a panic (or a call that never returns) is a divergence of its own: an empty summary with an impossible length
 			steps = append(steps, fmt.Sprintf("(%s, %s, %s, %s, ((-1), [], [], 0))", wscanNames[w], z(p), f.coq(), z(n)))
 			descs = append(descs, o.String()+" = "+res.String())
 			return
